@@ -52,7 +52,23 @@ def run(ctx):
   key = ast.parse(adef, mode='eval').body.args[0]
   from ..lib import expand_expr
   kd = [u(expand_expr(facts[mn.id], e)) for e in (key.elts if isinstance(key, ast.Tuple) else [])]
-  ok = len(kd) == 2 and kd[0] is not None and kd[0].replace(' ', '') == "'/'.join(current_scope())" and \
+  def is_scope_string(text):
+    t = (text or '').replace(' ', '')
+    if t == "'/'.join(current_scope())":
+      return True
+    # ... or a call of a parameterless repository function that returns exactly that
+    try:
+      e = ast.parse(text or 'None', mode='eval').body
+    except SyntaxError:
+      return False
+    if isinstance(e, ast.Call) and not e.args and not e.keywords:
+      q = prog.resolve_call(f, e)
+      g_ = ctx.ix.by_qual.get(q) if q else None
+      if g_ is not None and hasattr(g_, 'params') and not g_.params:
+        rs = [r for r in walk_local(g_.node) if isinstance(r, ast.Return)]
+        return len(rs) == 1 and rs[0].value is not None and u(rs[0].value).replace(' ', '') == "'/'.join(current_scope())"
+    return False
+  ok = len(kd) == 2 and is_scope_string(kd[0]) and \
       kd[1] is not None and '_RENAMED_SELECTORS.get(selector, selector)' in kd[1]
   ctx.check(ok, 'C07.record', con, 'the entry key is (active scope string, current complete selector)',
             'the operative record key is built from %s' % kd, w.loc(mn), instance='key')
